@@ -266,6 +266,36 @@ def nul_in_path_probe(S, rnd, windex, cnt, res):
                 return
 
 
+def chunked_request_probe(S, rnd, windex, cnt, res):
+    """a request body sent with Transfer-Encoding: chunked (legal HTTP/1.1): delivered exactly, or refused - never served without it"""
+    for app in (b"/echo", b"/aecho"):
+        body = bytes(rnd.getrandbits(8) for _ in range(rnd.choice([1, 3, 100, 5000])))
+        chunks = b""
+        p = 0
+        while p < len(body):
+            n = rnd.choice([1, 2, 16, 1000])
+            chunks += b"%x\r\n" % len(body[p:p + n]) + body[p:p + n] + b"\r\n"
+            p += n
+        chunks += b"0\r\n\r\n"
+        wire = b"POST " + app + b"/chunked HTTP/1.1\r\nHost: localhost\r\nX-Token: CH%d\r\nContent-Type: application/octet-stream\r\nTransfer-Encoding: chunked\r\nConnection: close\r\n\r\n" % windex + chunks
+        c = srv.Conn(S, "http")
+        try:
+            c.send(wire)
+            raw, _ = c.recv_all(10)
+        finally:
+            c.close()
+        d = proto.http_parse_response(raw)
+        cnt("chunked_request_probes")
+        if d["status"] == 200:
+            try:
+                echo = json.loads(d["body"].decode("latin-1"))
+            except ValueError:
+                continue
+            if echo["raw_len"] != len(body) or ("raw" in echo and hx(echo["raw"]) != body):
+                res["viol"].append({"key": "c01:raw-body-differs:http-chunked-request", "detail": "a %d-byte body sent with Transfer-Encoding: chunked was served (status 200) with the application seeing %d body bytes" % (len(body), echo["raw_len"]), "replay": {"proto": "http", "bytes": wire[:3000].hex()}})
+                return
+
+
 def keepalive_value_sweep(S, rnd, windex, cnt, res, prefix="c01"):
     """two or three requests on one kept-alive connection (http keep-alive, fastcgi keep_conn) where an early one carries a header value
     of a given length and a later one more header bytes than that: per-connection buffers and pools are reused between the requests"""
@@ -315,6 +345,8 @@ def worker(args):
             keepalive_value_sweep(S, rnd, windex, cnt, res)
         if not res["viol"]:
             nul_in_path_probe(S, rnd, windex, cnt, res)
+        if not res["viol"]:
+            chunked_request_probe(S, rnd, windex, cnt, res)
         for ci in range(ncases):
             if time.time() > t_end or res["viol"]:
                 break
